@@ -88,7 +88,7 @@ CHECK = {
         suite("fault", "c17", 10, 80, stdin=True, args=["-suite", "fault"], timeout={"quick": 600, "thorough": 1500}),
         suite("conc", "c17", 7, 90, stdin=True, args=["-suite", "conc"], timeout={"quick": 600, "thorough": 1500}),
         suite("join", "c17", 4, 120, stdin=True, args=["-suite", "join"], timeout={"quick": 600, "thorough": 1500}),
-        suite("depart", "c17", 9, 60, stdin=True, args=["-suite", "depart"], timeout={"quick": 600, "thorough": 1500}),
+        suite("depart", "c17", 6, 60, stdin=True, args=["-suite", "depart", "-par", "9"], timeout={"quick": 600, "thorough": 1500}),
         suite("cluster", "c17", 5, 100, stdin=True, args=["-suite", "cluster"], timeout={"quick": 600, "thorough": 2400}),
     ],
     "gen": [{"pkg": "extract_c17", "out": "lean/ClusterVerif/Gen/C17.lean"}],
@@ -112,7 +112,7 @@ CHECK = {
             "under the oracle the plan stands for. conc suite (7 scripts quick, 90 thorough): phases of 2-4 calls (one membership change + pins/unpins) "
             "started together from different members, observed at sync points; admitted iff some order of each phase explains it. join suite "
             "(4 scripts quick, 120 thorough): a staging peer is added and waited for while a burst of 16-40 pins is logged. "
-            "depart suite (9 generated histories + 9 corpus lines quick, 60 thorough): ONE observed full Cluster peer of a three-peer cluster is taken "
+            "depart suite (6 generated histories + 9 corpus lines quick, 60 thorough): ONE observed full Cluster peer of a three-peer cluster is taken "
             "through a history of the events of the Lean departure machine (write, removed by another member, removes itself, watchPeers round, "
             "operator Shutdown with/without leave_on_shutdown, restart on its folders; peer_watch_interval 3 s, removals placed early in the watch "
             "period so that what follows is before the next round); observed: Done(), listed by a remaining member, raft.db/snapshots present, "
